@@ -130,7 +130,8 @@ pub fn run(tier: &str) -> i32 {
     let bound = if thorough { 4 } else { 3 };
     rep.rule(&format!("stateless exploration of I/O schedules on the real code: every call on the controlled stream (read/write/seek/flush and their poll_* twins, poll_close) is a choice point; default = complete transfer/Ready; deviations = short transfer of 1, len/2 or len-1 bytes, or Pending once/twice (async). (a) iterative bounding: all executions with <= b deviations, b the largest value <= {bound} whose execution count fits the budget (>= 1 even for the 7.7k-call leaf-spill writers; see scenarios_explored_to_bound_*); (b) tiny directories: every transfer size at every call with unbounded deviations (all compositions); (c) uniform schedules 'every call moves <= c bytes' for c=1..{} with and without 'every poll Pending first'. Oracle: result and (for writers) stream image and final position identical to the 0-deviation execution, which is the in-memory result. non-trivial = executions with >= 1 deviation", if thorough { 32 } else { 9 }));
     rep.assume("controlled stream: seekable in-memory device, reads/writes may be short (>=1 byte) or pending; it stays writable after poll_close (the library closes the shared output after each compressed section); Interrupted/WouldBlock errors are not short transfers and are not explored");
-    let scs = scenarios(true);
+    // the 17 MiB-tile scenarios exist for the fault enumeration; byte-wise schedules over them would need 10^7 calls each
+    let scs: Vec<Scenario> = scenarios(true).into_iter().filter(|s| !s.name.contains("17MiB")).collect();
     use std::sync::atomic::{AtomicU64, Ordering};
     let total_exec_a = AtomicU64::new(0);
     let total_points_a = AtomicU64::new(0);
